@@ -47,7 +47,7 @@ func numInputs(r *eng.Rng, n int) []numIn {
 			add(eng.IVal{Kind: "f32", F: f32})
 		}
 	}
-	for _, s := range []string{"", " 5", "5 ", "+5", "-0", "007", "010", "0755", "-0012", "+0100", "0b11", "0o17", "0X1F", "08", "00", "1_0", "1_000", "0x10", "1e3", "1E3", "1e19", "1e400", "-1e400", "1.5", "-1.5", ".5", "5.", "NaN", "nan", "Inf", "-Inf", "+Inf", "infinity",
+	for _, s := range []string{"1.00000017881393432617187499", "340282356779733661637539395458142568447", "1.00000005960464477539062501", "", " 5", "5 ", "+5", "-0", "007", "010", "0755", "-0012", "+0100", "0b11", "0o17", "0X1F", "08", "00", "1_0", "1_000", "0x10", "1e3", "1E3", "1e19", "1e400", "-1e400", "1.5", "-1.5", ".5", "5.", "NaN", "nan", "Inf", "-Inf", "+Inf", "infinity",
 		"9223372036854775808", "-9223372036854775809", "99999999999999999999", "3000000000", "2147483648", "-2147483649", "abc", "1,5", "1e-400", "0x1p-2", "3.4028236e38", "3.4028235e38", "١٢"} {
 		add(eng.IVal{Kind: "str", S: s})
 	}
